@@ -132,8 +132,8 @@ CLAIMS['C03'] = ('other', 'Mixed: distance_bin is proved for ALL graphs (pyvc+z3
                  'contract of np.dot on non-negative matrices; found entries hold the shortest-walk length; open entries have no walk shorter than n) and, at exit, by the walk-decomposition lemmas, every open pair has no walk at all: '
                  'the result is the shortest-walk (= shortest-path) length, INF exactly when unreachable, 0 on the diagonal. efficiency_bin (global variant) is proved too: its nested helper distance_inv runs the same loop and returns 1/length (0 where there is no path, 0 on the diagonal; proved on its own, used through its contract) and E = sum of these inverses / (n*n - n). breadth (BFS from one source: the classical queue invariant -- queue = the gray nodes in level order spanning at most two levels, discovered nodes carry the shortest-walk length, black nodes have no undiscovered neighbour, everything up to the head level is discovered; exit by the Lean-proved closure lemma) and breadthdist (modular on breadth; reachability flag = finite distance) are proved for networks without self-loops. reachdist (ensure_binary=True) is proved as well: its recursive helper reachdist2 against its own contract (after accumulating the powers 1..p: R marks the pairs within p connections, D counts the powers at which a pair was reachable), the inversion `powr - D + 1`, the depth limit n+2 and the explicit infinities for nodes without incoming / outgoing connections give the shortest-path length, INF exactly when unreachable, and the flag R = finite distance. distance_wei (Dijkstra with batches of equidistant nodes; non-negative lengths) is proved for its distance matrix: permanent nodes hold wd, the batch is exactly the temporary nodes at the current minimum, every other temporary node holds its tentative value (minimum over connections from permanent nodes, attained at a ghost predecessor) strictly above the batch, G1 has the columns of permanent nodes cleared; the Lean-proved Dijkstra step (the minimum tentative value is the true distance, nothing reachable is closer, all-infinite means unreachable) closes each round; its edge-count output B is not specified. Everything else the property names (distance_wei_floyd, edge-count '
                  'outputs, agreement of the five routines, charpath / local efficiency / rout_efficiency means) is BOUNDED only: independent min-plus closure / BFS oracle on all digraphs n<=3/4, graphs n<=5/6, tie palettes, transforms. Level is '
-                 'other (mixed): all five distance routines (distance_bin, distance_wei, distance_wei_floyd for transform=None and transform=inv -- Floyd-Warshall: every finite entry is the length of a walk and no walk whose intermediate nodes are below the pivot counter is shorter, by the Lean-proved decomposition of a walk at the pivot --, breadthdist, reachdist), efficiency_bin and efficiency_wei (both global variant; efficiency_wei: invert through its contract, nested Dijkstra helper distance_inv_wei proved on its own, E = sum of 1/(minimum total length 1/w) over ordered pairs / (n*n-n)) are proved (for distance_wei also its edge-count matrix B: contract distance_wei:edges, every finite entry D[u,w] is the length of a walk with exactly B[u,w] connections, hence at exit of a minimum-length path; for distance_wei_floyd also the edge-count clause: by the contract distance_wei_floyd:paths and the contract of retrieve_shortest_path, see C12, following Pmat from s to t takes exactly hops[s,t] existing connections whose lengths add up to SPL[s,t], the minimum), and so are corollaries over these contracts (contracts/corollaries.py): distance_wei = distance_bin on 0/1 matrices, and distance_bin = breadthdist = reachdist off the diagonal with agreeing reachability flags; the log transform of distance_wei_floyd, charpath and the local variants are bounded.', BND_NOTE % 'C03' + ' Proved part: ' + PROOF_NOTE + ' Walk lemmas (incl. the pigeonhole bound sdist <= n-1) and INF > n are assumed.',
-                 'pyvc + z3 + Lean-proved graph lemmas (walks, Dijkstra step, Floyd-Warshall pivot decomposition) for all five distance routines (distance_wei_floyd: transform None / inv), efficiency_bin / efficiency_wei (global) and corollaries over these contracts; exhaustive small-scope comparison with an independent min-plus/BFS oracle (bounded) for charpath, rout_efficiency, the log transform and the local variants', '5/C03')
+                 'other (mixed): all five distance routines (distance_bin, distance_wei, distance_wei_floyd for transform=None and transform=inv -- Floyd-Warshall: every finite entry is the length of a walk and no walk whose intermediate nodes are below the pivot counter is shorter, by the Lean-proved decomposition of a walk at the pivot --, breadthdist, reachdist), efficiency_bin and efficiency_wei (both global variant; efficiency_wei: invert through its contract, nested Dijkstra helper distance_inv_wei proved on its own, E = sum of 1/(minimum total length 1/w) over ordered pairs / (n*n-n)) are proved (for distance_wei also its edge-count matrix B: contract distance_wei:edges, every finite entry D[u,w] is the length of a walk with exactly B[u,w] connections, hence at exit of a minimum-length path; for distance_wei_floyd also the edge-count clause: by the contract distance_wei_floyd:paths and the contract of retrieve_shortest_path, see C12, following Pmat from s to t takes exactly hops[s,t] existing connections whose lengths add up to SPL[s,t], the minimum), and so are corollaries over these contracts (contracts/corollaries.py): distance_wei = distance_bin on 0/1 matrices, and distance_bin = breadthdist = reachdist off the diagonal with agreeing reachability flags; rout_efficiency (transform=None) global part as a prefix contract on top of the Floyd contract (Erout = 1/SPL off the diagonal, GErout = total / (n*n-n)); the log transform of distance_wei_floyd, charpath and the local variants are bounded.', BND_NOTE % 'C03' + ' Proved part: ' + PROOF_NOTE + ' Walk lemmas (incl. the pigeonhole bound sdist <= n-1) and INF > n are assumed.',
+                 'pyvc + z3 + Lean-proved graph lemmas (walks, Dijkstra step, Floyd-Warshall pivot decomposition) for all five distance routines (distance_wei_floyd: transform None / inv), efficiency_bin / efficiency_wei (global) and corollaries over these contracts; exhaustive small-scope comparison with an independent min-plus/BFS oracle (bounded) for charpath, the log transform and the local variants', '5/C03')
 for _pid in ['C08', 'C18', 'C19', 'C20']:
     CLAIMS[_pid] = ('exploration', BND + 'See DESIGN.md section 5/%s for the clauses and why the deductive tier does not (yet) reach them.' % _pid,
                     BND_NOTE % _pid, 'runtime contracts on the real code over exhaustive small scopes (bounded stand-in)', '5/' + _pid)
